@@ -103,6 +103,17 @@ KNOWN_PREDICATES = {
 }
 
 
+prop("C17",
+     level_text="apply_bounds and its helper in the coordinate view (one generic element): fp64 tier (IEEE binary64, round-to-nearest-even) "
+                "proves for every method that the result lies in [lower, upper] and that a coordinate already inside is returned unchanged "
+                "(bit-exact identity); real tier proves how a moved coordinate is moved: clip -> nearest face, toroidal -> x minus a whole "
+                "number of ranges, reflect -> +/-(x - lower) plus an even number of ranges",
+     level_note="numpy.mod / floor_divide enter through their contracts (fp64: 0 <= m <= r, m == x for 0 <= x < r, m == RN(x + r) for "
+                "-r <= x < 0); broadcasting rule assumed; inputs where x - lower or upper - lower overflow are excluded (NaN result)",
+     assumptions=["IEEE-754 binary64 semantics of z3's FloatingPoint theory for + - and comparisons", "real arithmetic for the congruence clauses"],
+     undecided_subclauses=["'up to a few ulps' is proved in the stronger form 'unchanged' for inside points"])
+
+
 def run_battery(pid, tier, seed, obligation="", ignore=""):
     drv = os.path.join(VERIF, "replay", "battery.py")
     try:
